@@ -796,6 +796,11 @@ class Repository:
                 contents = self._get_cached(path)
             except FileNotFoundError:
                 pass
+            else:
+                # The entry may be left incomplete by an interrupted run
+                if self.props.hash_digest(contents) != expected_digest:
+                    logger.info('Cached %s is corrupted, ignoring it', path)
+                    contents = None
 
         if contents is None:
             contents = self._download_threadsafe(path, loop=loop)
